@@ -65,8 +65,8 @@ def find_aliases(raw):
     cands = []
     for m, fm in missing.items():
         for e, fe in extra.items():
-            if fm['ret'] != fe['ret'] or fm['kind'] != fe['kind']:
-                continue
+            if fm['ret'] != fe['ret']:
+                continue          # (a free function may have become an associated one or the reverse)
             s = _sim(fm['callees'], fe['callees'])
             if fm['args'] != fe['args']:
                 # parameter passing changed (a value instead of a reference, a derived quantity instead of the object): accepted
